@@ -95,4 +95,30 @@ func init() {
 		Assumptions: []string{"seeded sampling of histories and reopen positions", "clean Close only (crashes are C03)"},
 		Quick:       40, Thorough: 600, Real: commonReal, Simulated: commonSim,
 	}
+	Props["C12"] = &PropSpec{
+		ID: "C12", Level: "exploration",
+		Technique: "deterministic simulation: seeded schedule search over bursting writers + periodic flusher + explicit flushes with a bounded-liveness watchdog on the simulated clock",
+		Rule: "one case = 1-3 writer tasks bursting Put/Remove (zero think time) into a store with burst rate 32-512 bytes, sync interval 10 ms-1 s simulated, a finite measured flush rate (disk latency model or the verif flush-rate setter), optional explicit Flush task; single writer with no other traffic is 40% of the cases; oracle (bounded liveness, checked after every scheduler step): no writer is still parked at the flush-notice receive once the periodic flusher has completed 3 flush calls since the wait began (so at least 2 of them started after it); a deadlock is the same violation; " +
+			"non-trivial = at least one writer actually entered the waiting path; distinct = distinct (plan hash, schedule hash)",
+		Nontrivial: func(o *RunOut) bool { return o.Probes["writer-waited"] > 0 },
+		Assumptions: []string{
+			"bounded liveness: 3 completed flusher iterations after the wait began, no faults injected",
+			"interleavings explored at lock/channel/clock/file-system operations",
+		},
+		Quick: 45, Thorough: 900, Real: commonReal, Simulated: commonSim,
+	}
+	Props["C17"] = &PropSpec{
+		ID: "C17", Level: "exploration",
+		Technique: "deterministic simulation: seeded schedule search with Close issued while flusher and collectors are mid-cycle (stalled disk), resource ledger of the simulated disk and task table checked after advancing the virtual clock; failing-open and open/close-cycle classes",
+		Rule: "three case classes: (a) concurrent workload with background collectors on 5-65 ms simulated intervals and stalled disk operations, then Close after a random linger; after Close returns the virtual clock is advanced past 3x the largest interval and: no task started by the store is alive, no handle opened by the store is open, no mutating file op was issued after Close returned, reopening shows the contents read just before Close; (b) failing opens (index/primary file-size mismatch with the specific error, unsupported primary type, invalid-JSON header, EIO on the n-th open/read of OpenStore, bit-size change with EIO inside the translation): same ledger/task checks; (c) 20-50 open/close cycles with work: counts return to baseline every cycle; " +
+			"non-trivial = a Close with background work in flight, a failed open, or an open/close cycle was checked; distinct = distinct (plan hash, schedule hash)",
+		Nontrivial: func(o *RunOut) bool {
+			return o.Probes["close-during-background-work"]+o.Probes["failed-open"]+o.Probes["open-close-cycle"] > 0
+		},
+		Assumptions: []string{
+			"callers have returned before Close is called (Close racing in-flight Put/Get calls is outside the statement)",
+			"descriptors = handles of the simulated disk; goroutines = simulator tasks",
+		},
+		Quick: 45, Thorough: 900, Real: commonReal, Simulated: commonSim,
+	}
 }
